@@ -36,12 +36,12 @@ var properties = map[string]*Property{
 				"(*Comp).UnaryMinus", "(*Comp).UnaryXor", "(*Comp).UnaryNot",
 				"(*Env).Up", "(*Bind).intExpr", "(*Bind).expr", "(*Symbol).intExpr", "(*Symbol).expr",
 				"(*Comp).mulPow2", "(*Comp).quoPow2", "(*Comp).remPow2", "(*Comp).exprZero", "integerLen",
-				"(*Comp).Shl", "(*Comp).Shr",
+				"(*Comp).Shl", "(*Comp).Shr", "(*Expr).AsUint64",
 			}},
 		},
 		NotCovered: []string{
 			"composition over whole expression trees (structural induction on the program: a paper argument, DESIGN.md 4.6)",
-			"the shift count as a function (Expr.AsUint64: uint64 of the count, panic for a negative signed count) and prepareShift (operand checks, untyped operands): assumed; && and || (Land, Lor), interface and nil comparisons (eqlneqMisc, eqlneqNilR), BinaryExpr1/UnaryExpr dispatch, EvalConst",
+			"prepareShift (operand checks, untyped operands: assumed); that the count function a shift closure calls is the one AsUint64 made for its right operand (the two families are verified separately); count functions over reflect.Value operands; && and || (Land, Lor), interface and nil comparisons (eqlneqMisc, eqlneqNilR), BinaryExpr1/UnaryExpr dispatch, EvalConst",
 			"isLiteralNumber (assumed contract), constants of negative zero (assumed absent: go/constant holds exact values)",
 			"run-time panics: a closure panics exactly where the Go operator it applies panics (closures use the Go operators themselves); compile-time rejection conditions are not under contract",
 		},
